@@ -301,6 +301,72 @@ def run(ctx):
                   'a copy short by sizeof(header) zeroes the last 80 payload bytes of every realigned survivor')
     rule_realign(ctx, P, rb, rc)
     rb.require_min(5); rc.require_min(2)
+    # ---------------- R01e the "no decode needed" path counts distinct data fragments
+    re_ = ctx.rule('R01e', 'fragments_to_string: the data-fragment count that gates the copy-out path is incremented only when an empty slot is filled',
+                   'a duplicated fragment counted twice hides a missing one: the fast path then reads the empty slot of the missing fragment')
+    fs = P.fn('fragments_to_string')
+    Cs = Canon(P, fs)
+    from ..cfg import natural_loops as _nl
+    gates = []
+    for b in fs.order:
+        t = b.insts[-1]
+        if t.op == 'br' and len(t.targets) == 2 and t.ops:
+            c = fs.defs.get(t.ops[0])
+            if c is not None and c.op == 'icmp' and c.pred in ('ne', 'eq', 'slt', 'sge'):
+                ops_ = [strip_int_casts(fs, o) for o in c.ops]
+                if fs.params[0][1] in ops_:
+                    other = [o for o in ops_ if o != fs.params[0][1]]
+                    d = fs.defs.get(other[0]) if other else None
+                    if d is not None and d.op == 'phi' and any(v == '0' for v, _ in d.incoming):
+                        gates.append((c, d))
+    if not gates:
+        re_.undecided('count gate', loc=fs.mod.src, msg='no comparison of a counter with k found in fragments_to_string')
+    for c, cphi in gates:
+        incs = [i for i in fs.insts() if i.op == 'add' and cphi.res in [strip_int_casts(fs, o) for o in i.ops] and '1' in i.ops]
+        if not incs:
+            re_.undecided(f'counter {cphi.res}', loc=c.loc, msg='counter is never incremented by one')
+        for inc in incs:
+            F = Facts(P, fs, inc.bb)
+            sts = [i for i in inc.bb.insts if i.op == 'store' and i.ty.endswith('*')]
+            ok = any(('eq', '*' + Cs.addr(st.ops[1]), 'null') in F.facts or ('eq', 'null', '*' + Cs.addr(st.ops[1])) in F.facts for st in sts)
+            inst = f'fragments_to_string: count at line {inc.line} only under "slot empty", together with filling the slot'
+            if ok:
+                re_.ok(inst, func=fs.name, loc=inc.loc)
+            else:
+                re_.fail(inst, func=fs.name, sig='data fragment counted without the empty-slot test', loc=inc.loc,
+                         msg='the number of data fragments is incremented for every listed data fragment, not only when its slot was empty: with a duplicate '
+                             'and a missing data fragment the count reaches k and the copy-out path dereferences the empty slot')
+    re_.require_min(1)
+
+    # ---------------- R01f zero-length objects: the allocation wrappers refuse nothing but negative sizes
+    rf_ = ctx.rule('R01f', 'allocation wrappers return NULL only when the underlying allocation failed (or the size is negative): size 0 is served',
+                   'an empty object decodes into a 0-byte buffer: a wrapper that refuses size <= 0 turns every empty object into -ENOMEM')
+    from ..paths import enumerate_paths as _ep
+    ALLOCS = ('@malloc', '@calloc', '@posix_memalign', '@get_aligned_buffer16', '@alloc_zeroed_buffer', '@alloc_and_set_buffer')
+    for an in ('get_aligned_buffer16', 'alloc_zeroed_buffer', 'alloc_and_set_buffer', 'alloc_fragment_buffer'):
+        af = P.fns.get('@' + an)
+        if af is None:
+            continue
+        bad = None
+        np_ = 0
+        for pth in _ep(P, af):
+            T = [(pr, a, b) for pr, a, b, w, i_ in pth.truths()]
+            np_ += 1
+            isnull = pth.ret == 'null' or ('eq', pth.ret, 'null') in T
+            if not isnull:
+                continue
+            failed = any(any(a.startswith(x + '(') for x in ALLOCS) and ((pr == 'eq' and b == 'null') or (pr in ('ne', 'sgt', 'slt') and b == '0')) for pr, a, b in T)
+            negative = any(a == 'arg0' and ((pr == 'slt' and b == '0') or (pr == 'sle' and b == '-1')) for pr, a, b in T)
+            if not failed and not negative:
+                bad = T
+        inst = f'{an}: NULL only after a failed allocation'
+        if bad is not None:
+            rf_.fail(inst, func=af.name, sig='NULL returned without an allocation failure', loc=af.mod.src,
+                     msg=f'{an} returns NULL under {bad[-2:]} - not an allocation failure and not a negative size: a request for 0 bytes (empty object) is refused')
+        else:
+            rf_.ok(inst, func=af.name, loc=af.mod.src, facts={'paths': np_})
+    rf_.require_min(3)
+
     rk = ctx.rule('R01d', 'coding kernels process every byte of the block (XOR kernel, RS region_xor / region_multiply)',
                   'payload sizes are multiples of 2 or 4 bytes only: a kernel tail for another width leaves the last bytes of parity / rebuilt data stale')
     from .. import cover
